@@ -114,6 +114,7 @@ pub use crate::rule::{
   HookNthChild as SerializableNthChild, HookRange as SerializableRange, NthChildSimple,
   PatternStyle, Relation, SerializableStopBy, StopBy, Strictness,
 };
+pub use crate::rule_config::verif_hooks::rule_config_from_parts;
 pub use crate::rule_config::SerializableRewriter;
 pub use crate::transform::rewrite_hooks as rewrite;
 pub use crate::transform::string_case_hooks as string_case;
